@@ -222,19 +222,7 @@ impl<C: NtpClock> Server<C> {
 
         // Try and parse the message
         let (packet, cookie) = match NtpPacket::deserialize(message, self.keyset.as_ref()) {
-            Ok((packet, cookie)) => {
-                if packet.mode() == crate::NtpAssociationMode::Client {
-                    (packet, cookie)
-                } else {
-                    stats_handler.register(
-                        fallback_message_version(message),
-                        false,
-                        ServerReason::ParseError,
-                        ServerResponse::Ignore,
-                    );
-                    return Err(ServerAction::Ignore);
-                }
-            }
+            Ok((packet, cookie)) => (packet, cookie),
             Err(PacketParsingError::DecryptError(packet)) => {
                 // Don't care about decryption errors when denying anyway
                 if action != ServerResponse::Deny {
@@ -253,6 +241,17 @@ impl<C: NtpClock> Server<C> {
                 return Err(ServerAction::Ignore);
             }
         };
+
+        // Only requests are ever answered, also when they could not be decrypted
+        if packet.mode() != crate::NtpAssociationMode::Client {
+            stats_handler.register(
+                fallback_message_version(message),
+                false,
+                ServerReason::ParseError,
+                ServerResponse::Ignore,
+            );
+            return Err(ServerAction::Ignore);
+        }
 
         // Generate the appropriate response
         let version = packet.version();
